@@ -62,7 +62,8 @@ def run_traced(beh, t):
                     if v is not None and not callable(v):
                         total = total + jnp.sum(v)
             if ret is not None and ret[0] in ("ln", "custom") and ret[1] is not None:
-                total = total + jnp.sum(ret[1])
+                for leaf in jax.tree_util.tree_leaves(ret[1]):      # custom returns may be tuples of arrays
+                    total = total + jnp.sum(leaf)
     finally:
         replay.A = old_A
         replay.bindings_cond.A = old_A
